@@ -251,3 +251,45 @@ class Renamed(object):
 
     def require(self, rid, *a, **k):
         return self._ctx.require(self._r(rid), *a, **k)
+
+
+class Trial(object):
+    """A rule run "on trial": what it records is held back.  `commit()` replays it into the real context; `discard()` drops it.  Used where a structural reading of a
+    function (which knows one way of writing it) and an interpretation of the same function on abstract inputs decide the same clause: the structural reading counts
+    only when it ends without a complaint - a VIOLATION or an UNDECIDED of the structural reading means "not the shape I know", and the interpretation decides."""
+    def __init__(self, ctx):
+        object.__setattr__(self, '_ctx', ctx)
+        object.__setattr__(self, '_log', [])
+        object.__setattr__(self, 'complaints', [])
+
+    def __getattr__(self, k):
+        return getattr(self._ctx, k)
+
+    def __setattr__(self, k, v):
+        setattr(self._ctx, k, v)
+
+    def rule(self, *a, **k):
+        self._log.append(('rule', a, k))
+
+    def holds(self, *a, **k):
+        self._log.append(('holds', a, k))
+
+    def violated(self, rid, fi, construct, message, *a, **k):
+        self.complaints.append('%s: %s' % (rid, construct if isinstance(construct, str) else message[:60]))
+        self._log.append(('violated', (rid, fi, construct, message) + a, k))
+
+    def undecide(self, rid, message):
+        self.complaints.append('%s: %s' % (rid, message[:60]))
+        self._log.append(('undecide', (rid, message), {}))
+
+    def require(self, rid, cond, message):
+        if not cond:
+            self.complaints.append('%s: %s' % (rid, message[:60]))
+            raise AnalysisError('%s-%s: %s' % (self._ctx.prop, rid, message))
+
+    def commit(self):
+        for kind, a, k in self._log:
+            getattr(self._ctx, kind)(*a, **k)
+
+    def discard(self):
+        del self._log[:]
